@@ -43,12 +43,18 @@ pub enum TimeoutCase {
     Real { tests: usize, slow: Option<usize>, per_test_ms: Option<u64>, total_ms: Option<u64>, via_flag: bool, cram: bool },
 }
 
+thread_local! {
+    /// what the implementation did, as seen by the runner: (virtual now at the call, line number of the test case, timeout handed over, duration)
+    static OBSERVED: std::cell::RefCell<Vec<(u64, usize, Option<u64>, u64)>> = const { std::cell::RefCell::new(vec![]) };
+}
+
 /// Runner that takes `d=<n>` virtual seconds, honouring the timeout it is given (the contract of limit_time)
 struct FakeRunner;
 
 impl Runner for FakeRunner {
     fn run(&self, _name: &str, testcase: &TestCase, _context: &ExecutionContext) -> anyhow::Result<Output> {
         let d: u64 = testcase.shell_expression.strip_prefix("d=").and_then(|s| s.parse().ok()).unwrap_or(0);
+        OBSERVED.with(|o| o.borrow_mut().push((verif_clock::virtual_now().unwrap_or_default().as_secs(), testcase.line_number, testcase.config.timeout.map(|t| t.as_secs()), d)));
         let d = Duration::from_secs(d);
         match testcase.config.timeout {
             Some(t) if d > t => {
@@ -218,10 +224,11 @@ impl Engine for VcTimeout {
     }
     fn extra_coverage(&self, _p: &str, s: &Stats) -> BTreeMap<String, Value> {
         let mut m = BTreeMap::new();
-        let states = s.counters.get("virtual_states").copied().unwrap_or(0);
-        let transitions = s.counters.get("virtual_transitions").copied().unwrap_or(0);
+        let states = s.sets.get("states").map(|x| x.len()).unwrap_or(0);
+        let transitions = s.sets.get("transitions").map(|x| x.len()).unwrap_or(0);
         m.insert("states".into(), json!(states.max(1)));
         m.insert("transitions".into(), json!(transitions.max(1)));
+        m.insert("states_rule".into(), json!("distinct (document limit, virtual now, next test case) observed at the calls of the runner and at return; transitions = distinct (state, per-test timeout, wait, duration, timeout handed to the runner)"));
         m.insert("traces_validated_against_impl".into(), json!(s.counters.get("virtual_traces").copied().unwrap_or(0) + s.counters.get("real_time_replays").copied().unwrap_or(0)));
         m
     }
@@ -250,6 +257,7 @@ impl Engine for VcTimeout {
                 };
                 let ctx = ContextBuilder::default().work_directory(scratch.sub("work")).temp_directory(scratch.sub("tmp")).file("doc.md".into()).config(dc).build().unwrap();
                 verif_clock::set_virtual_now(Some(Duration::ZERO));
+                OBSERVED.with(|o| o.borrow_mut().clear());
                 let executor = StatefulExecutor::new(Box::new(|_: &Path| Box::new(FakeRunner) as Box<dyn Runner>));
                 let result = guard(|| executor.execute_all(&refs, &ctx));
                 let end = verif_clock::virtual_now().unwrap_or_default().as_secs();
@@ -259,8 +267,15 @@ impl Engine for VcTimeout {
                     res.nontrivial.push(("C14", key));
                 }
                 res.counters.push(("virtual_traces", 1));
-                res.counters.push(("virtual_transitions", steps.len() as u64));
-                res.counters.push(("virtual_states", steps.len() as u64 + 1));
+                // explored system: state = (document limit, virtual now, index of the next test case) at each call of the runner and at return;
+                // transition = (state, per-test timeout, wait, duration, timeout handed to the runner)
+                let observed = OBSERVED.with(|o| o.borrow().clone());
+                for (now, line, handed, d) in &observed {
+                    res.sets.push(("states", hash64(&(total, *now, *line))));
+                    let st = &steps[line - 1];
+                    res.sets.push(("transitions", hash64(&(total, *now, *line, st.timeout, st.wait, *d, *handed))));
+                }
+                res.sets.push(("states", hash64(&(total, end, usize::MAX, observed.len()))));
                 let describe = || format!("document limit {total:?}, tests {:?}", steps.iter().map(|s| format!("d={} timeout={:?} wait={:?}", s.d, s.timeout, s.wait)).collect::<Vec<_>>());
                 let mut tags = vec![];
                 if steps.iter().any(|s| s.wait.is_some()) {
@@ -400,8 +415,8 @@ impl Engine for VcTimeout {
                             }
                         }
                         let ms = run.wall.as_millis() as u64;
-                        if ms + 50 < limit || ms > limit + 1500 {
-                            res.findings.push(Finding::new("C14", "aborted-once-the-limit-elapsed", format!("{}: wall time within [{limit}, {}] ms", describe(), limit + 1500), format!("{ms} ms")).tag(if per_test_ms.is_some() && total_ms.is_some() { "both-limits-set" } else { "one-limit-set" }));
+                        if ms + 50 < limit || ms > limit + 2500 {
+                            res.findings.push(Finding::new("C14", "aborted-once-the-limit-elapsed", format!("{}: wall time within [{limit}, {}] ms", describe(), limit + 2500), format!("{ms} ms")).tag(if per_test_ms.is_some() && total_ms.is_some() { "both-limits-set" } else { "one-limit-set" }));
                         }
                         // the aborted command
                         if let Some((pid, alive)) = survivors.first() {
